@@ -32,4 +32,6 @@ run L2 HashSet.h "				indexCode = bucketIndex;
 run N1 details/HashBucketOpen2N2.h "			return (bucketIndex + probe) & (bucketCount - 1);	// quadratic probing" "			return (bucketIndex + 2) & (bucketCount - 1);	// quadratic probing"
 # P1: BucketBase (LimP4, One) linear probing with step 2: only half of the buckets are probed -- breaks next_lidx and with it the LimP4 no-exception theorems
 run P1 details/BucketUtility.h "			return (bucketIndex + 1) & (bucketCount - 1);	// linear probing" "			return (bucketIndex + 2) & (bucketCount - 1);	// linear probing"
+# Q1: pvAddGrow's growth decision accepts newCapacity == mCount (the count may then exceed the capacity by one) -- breaks grow_decision
+run Q1 HashSet.h "			if (newCapacity > mCount)" "			if (newCapacity >= mCount)"
 python3 /verif/props/C12/regen_clean.py   # leave the clean translation in the shared coq directory
